@@ -303,7 +303,11 @@ func (m Message) GetMetaSeqData(bt *[]byte) bool {
 	}
 
 	if bt != nil {
-		data := m.metaDataWithoutVarlength()
+		// the length of the data is a variable length quantity, that needs more than one byte for more than 127 bytes of data
+		data, err := utils.ReadVarLengthData(bytes.NewReader(m[2:]))
+		if err != nil {
+			return false
+		}
 		*bt = data
 	}
 	return true
